@@ -28,6 +28,12 @@ class HarnessError(Exception):
     pass
 
 
+class InvalidHugr(Exception):
+    """The compiler accepted the program but its output does not validate (so it cannot be built
+    for emulation).  That is the compiler's failure, not the harness's: every emulating check
+    reports it as a violation (`<ID>:compiled-program-is-invalid-hugr`)."""
+
+
 def guppy_error_types() -> tuple[type, ...]:
     from guppylang_internals.error import GuppyError
 
@@ -176,6 +182,12 @@ class Ctx:
             except BaseException as e:  # pyo3 PanicException derives from BaseException
                 if isinstance(e, (KeyboardInterrupt, SystemExit)) or type(e).__name__ == "CaseTimeout":
                     raise
+                try:
+                    e1, e2 = self.validate_both(pkg)
+                except Exception:
+                    e1 = e2 = None
+                if e1 or e2:
+                    raise InvalidHugr((e1 or e2)[:1500]) from e
                 raise HarnessError(f"selene build: {type(e).__name__}: {str(e)[:2000]}") from e
             em = EmulatorInstance(_instance=inst, _n_qubits=n_qubits).with_shots(shots)
             if sim == "auto":
